@@ -24,27 +24,28 @@ func verifC06Lines(b []byte) [][]byte {
 	return out
 }
 
-// VerifC06StreamBlocks: the request body is cut into blocks of whole lines by ReadLinesBlockExt (block size 4
+// VerifC06StreamBlocks: the request body is cut into blocks of whole lines by ReadLinesBlockExt (block size 8
 // here instead of 64 KiB, so that every alignment of line ends and block ends occurs within a few bytes).
 // Whatever the body - newlines anywhere, last line with or without a newline, length a multiple of the
 // block size or not - the non-empty lines of the blocks delivered are exactly the non-empty lines of the body, in order: no line is lost, split or
 // delivered twice, and the stream ends with io.EOF.
 func VerifC06StreamBlocks() {
-	n := verifrt.Choose("len", 9+4*verifrt.Tier())
+	n := verifrt.Choose("len", 18)
 	body := make([]byte, n)
 	for i := range body {
-		if verifrt.Bool("nl") {
+		body[i] = byte('a' + i)
+		// newlines may stand around the block boundaries (quick) or anywhere (thorough)
+		if (verifrt.Tier() > 0 || i == 3 || i == 6 || i == 7 || i == 8 || i == 14 || i == 15 || i == 16) && verifrt.Bool("nl") {
 			body[i] = '\n'
-		} else {
-			body[i] = byte('a' + i)
 		}
 	}
 	r := bytes.NewReader(body)
-	var dst, tail []byte
+	dst := make([]byte, 0, 8) // the block buffer: exactly one block, as after the first call in production
+	var tail []byte
 	var got [][]byte
 	var err error
 	for iter := 0; iter <= 2*n+2; iter++ {
-		dst, tail, err = ReadLinesBlockExt(r, dst, tail, 64, 4)
+		dst, tail, err = ReadLinesBlockExt(r, dst, tail, 64, 8)
 		if err != nil {
 			break
 		}
